@@ -363,15 +363,31 @@ def pLayer : P Layer := do
   let fc ← pFull
   pure ⟨fc, skip, rAllow⟩
 
-/-- line: `preflight m originValue* reqHeaders nLayers layer*` (layers outermost first, at least one)
+/-- round 6: the request as the middleware reads it off the whole request head.  Only three things
+    are consulted: whether the method is exactly `OPTIONS`, the values of `Origin` (the first one
+    counts) and the first `Access-Control-Request-Headers` value; header names arrive in net/http's
+    canonical form.  Everything else — `Access-Control-Request-Method`, `Sec-Fetch-*`, `Host`,
+    `Cookie`, `Authorization`, `X-Requested-With`, … — is in the input and ignored. -/
+def hdrValues (headers : List (Str × Str)) (name : Str) : List Str :=
+  (headers.filter fun h => h.1 = name).map (·.2)
+
+def reqOf (method : Str) (headers : List (Str × Str)) : FReq :=
+  ⟨⟨method = "OPTIONS".toList, hdrValues headers "Origin".toList⟩, false, [],
+   (hdrValues headers "Access-Control-Request-Headers".toList).headD []⟩
+
+def pPair : P (Str × Str) := do
+  let a ← str
+  let b ← str
+  pure (a, b)
+
+/-- line: `method nHeaders (name value)* nLayers layer*` (layers outermost first, at least one)
     →  `status ran (0 | 1 acao) acac k vary* (0|1 allow) (0|1 acam) (0|1 acah) (0|1 aceh) (0|1 maxage)` -/
 def runLine (line : String) : String :=
   match parseLine (do
-      let pre ← bool
-      let ov ← list str
-      let rh ← str
+      let method ← str
+      let headers ← list pPair
       let layers ← list pLayer
-      pure (FReq.mk ⟨pre, ov⟩ false [] rh, layers)) line with
+      pure (reqOf method headers, layers)) line with
   | none => "bad-op"
   | some (fr, layers) => encFObs (serveStack fr layers)
 
